@@ -276,15 +276,15 @@ def run(ctx):
                         kind = "event:order-or-mapping" if other else "event:data-differs"
                         ctx.violation(kind, w, "at %r result=%r model=%r (matches events %r)" % (list(d[0]), d[1], d[2], other))
                         break
-                    want = sorted([p for p, _k in ref[2]], key=repr)
-                    got = exec_mon.error_paths(res)
+                    want = refexec.drop_under_aborted(sorted([p for p, _k in ref[2]], key=repr), ref[3])
+                    got = refexec.drop_under_aborted(exec_mon.error_paths(res), ref[3])
                     if want != got:
                         leaked = [p for p in got if p not in want]
                         kind = "event:errors-from-other-events" if leaked and len(got) > len(want) else "event:error-paths-differ"
                         ctx.violation(kind, w, "result=%r model=%r" % (got[:6], want[:6]))
                         break
                     msgs = sorted(str(e) for e in res.errors if "resolver error at" in str(e))
-                    if msgs != sorted(ref[3].error_messages):
+                    if msgs != sorted(ref[3].error_messages) and not ref[3].type_failures:
                         ctx.violation("event:error-messages-of-another-event", w, "result=%r model=%r" % (msgs[:3], sorted(ref[3].error_messages)[:3]))
                         break
                     if ref[2]:
